@@ -48,6 +48,7 @@ static int interactive, snap_end_only;
 #define MAXFAIL 8
 static long fail_k[MAXFAIL], fail_errno[MAXFAIL], fail_count[MAXFAIL], kill_k = -1;
 static int nfail;
+static long short_k = -1;     /* -w K: the K-th call, if it is a write, transfers only half of its bytes */
 static pid_t child;
 
 struct sc { long nr; const char *name; int kind; };
@@ -174,6 +175,7 @@ int main(int argc, char **argv)
     else if (!strcmp(argv[a], "-S") && a + 1 < argc) { snapdir = argv[++a]; snap_end_only = 1; }
     else if (!strcmp(argv[a], "-k") && a + 1 < argc) kill_k = atol(argv[++a]);
     else if (!strcmp(argv[a], "-i")) interactive = 1;
+    else if (!strcmp(argv[a], "-w") && a + 1 < argc) short_k = atol(argv[++a]);
     else if (!strcmp(argv[a], "-f") && a + 1 < argc) {
       char *s = argv[++a];
       if (nfail < MAXFAIL) {
@@ -204,7 +206,7 @@ int main(int argc, char **argv)
 
   int in_window = 0, in_syscall = 0;
   long idx = 0;
-  int cur_logged = 0, cur_inject = 0; long cur_errno = 0;
+  int cur_logged = 0, cur_inject = 0, cur_short = 0; long cur_errno = 0;
   char p1[PATH_MAX * 2], p2[PATH_MAX * 2], rp1[PATH_MAX], rp2[PATH_MAX];
   const char *cur_name = ""; long cur_arg = 0;
   int sig = 0, status = 0;
@@ -233,7 +235,7 @@ int main(int argc, char **argv)
     if (!in_syscall) {
       /* ---- entry ---- */
       in_syscall = 1;
-      cur_logged = 0; cur_inject = 0;
+      cur_logged = 0; cur_inject = 0; cur_short = 0;
       long nr = r.orig_rax;
       /* markers */
       if (nr == SYS_access || nr == SYS_faccessat
@@ -294,6 +296,11 @@ int main(int argc, char **argv)
         status = 137;
         break;
       }
+      if (idx == short_k && (nr == SYS_write || nr == SYS_pwrite64) && r.rdx >= 2) {
+        r.rdx = r.rdx / 2;          /* a short write: the call succeeds with fewer bytes than asked for */
+        ptrace(PTRACE_SETREGS, child, 0, &r);
+        cur_short = 1;
+      }
       if (do_fail) {
         cur_inject = 1;
         r.orig_rax = -1;            /* no such system call: the kernel skips it */
@@ -310,7 +317,7 @@ int main(int argc, char **argv)
         ret = -cur_errno;
       }
       if (logf) {
-        fprintf(logf, "%ld\t%s\t%s\t%s\t%ld\t%ld\t%s\n", idx, cur_name, rp1, rp2, cur_arg, ret, cur_inject ? "INJECT" : "");
+        fprintf(logf, "%ld\t%s\t%s\t%s\t%ld\t%ld\t%s\n", idx, cur_name, rp1, rp2, cur_arg, ret, cur_inject ? "INJECT" : cur_short ? "SHORT" : "");
         fflush(logf);
       }
       if (interactive) { printf("RET\t%ld\t%ld\n", idx, ret); fflush(stdout); }
